@@ -27,6 +27,7 @@ def _module_interp(program: Program) -> Interp:
     mods = {
         "itertools": Obj("itertools", zip_longest=BUILTINS["zip_longest"], chain=BUILTINS["chain"], islice=BUILTINS["islice"]),
         "functools": Obj("functools", wraps=BUILTINS["wraps"]),
+        "numpy": _np_stub(),
     }
     for st in tree.body:
         if isinstance(st, ast.FunctionDef):
@@ -224,3 +225,16 @@ def judge(records, dname: str):
         if rec["counted"] and rec["calls"] and rec["counts"] is not None and sum(rec["counts"].values()) != rec["calls"]:
             add("memo", "count-mismatch", f"the shared call counter records {sum(rec['counts'].values())} evaluation(s) for {rec['calls']} actual one(s) ({where})")
     return [(side, key, msg) for (side, key), msg in out.items()]
+
+
+def _np_stub():
+    """NumPy as far as mici/states.py uses it: array tokens are `np.ndarray` instances; two of them may share memory
+    when one is (a view of) the other."""
+    from ..absexec import ArrayType, Obj as _Obj, Token as _Token, _builtin as _b
+
+    def may_share(a, b):
+        if not (isinstance(a, _Token) and isinstance(b, _Token)):
+            return False
+        return a is b or a._attrs.get("view_of") is b or b._attrs.get("view_of") is a
+
+    return _Obj("numpy", ndarray=ArrayType, may_share_memory=_b(may_share), shares_memory=_b(may_share))
